@@ -152,8 +152,9 @@ theorem tie_vital_destruct_order :
 
 /-- every registered handler still puts back the C state its efun keeps across callbacks: sort_array_unlink pops the sort
     context AND points the comparison trampoline's global (`sort_array_ftc`) at the enclosing sort again; the unique_* handlers
-    unlink their list heads; fix_object_names restores both names.  (The model gives an effect to fix_object_names only; the
-    other three are exercised by the nested efun-callback cases on the driver: no crash, outer result correct by value.) -/
+    unlink their list heads; fix_object_names restores both names.  (Model: `runSlotHandler` — fix_object_names restores the
+    names, every other handler unlinks the head of `efunCtx`; `popN_unlinks_efun_contexts`.  On the driver: nested efun-callback
+    cases, no crash, outer result correct by value.) -/
 theorem tie_handler_effects :
     ∀ p ∈ [("sort_array_unlink", "sort_array_ftc"), ("sort_array_unlink", "sort_ctx_top"),
            ("unique_array_error_handler", "g_u_list"), ("unique_mapping_error_handler", "g_u_m_list"),
